@@ -18,11 +18,6 @@ theorem setQ_get_ne (h : Heap) (p : Nat) (r : Rat) (l : ZLoc) (h1 : l ≠ .num p
   unfold Heap.setQ
   rw [Heap.set_get_ne _ _ _ _ h2, Heap.set_get_ne _ _ _ _ h1]
 
-theorem qval_num_den {h : Heap} {i : Nat} (hc : Canon h i) :
-    (qval h i).num = h (.num i) ∧ ((qval h i).den : Int) = h (.den i) := by
-  unfold qval
-  rw [Rat.divInt_eq_div]
-  exact ⟨Rat.num_div_eq_of_coprime hc.1 hc.2, Rat.den_div_eq_of_coprime hc.1 hc.2⟩
 theorem setQ_fields (h : Heap) (p : Nat) {N D : Int} (hD : 0 < D) (hc : Nat.Coprime N.natAbs D.natAbs) :
     (h.set (.num p) N).set (.den p) D = h.setQ p (Rat.divInt N D) := by
   unfold Heap.setQ
@@ -278,7 +273,7 @@ theorem Divides.q_si_spec (cst : Bool) (p r : Nat) (l : Int) (h : Heap) (hc : Ca
 
 def argR (h : Heap) : QArg → Option Rat
   | .q i => some (qval h i)
-  | .z i => some ((h (.v i) : Int) : Rat)
+  | .z l => some ((h l : Int) : Rat)
   | .bi c => biRat c
 
 def QArg.canon (h : Heap) : QArg → Prop
